@@ -5,12 +5,17 @@ use crate::report::Report;
 use crate::Ctx;
 
 pub mod c01;
+pub mod c07;
+pub mod c17;
+#[cfg(feature = "count-alloc")]
+pub mod c18;
 pub mod c02;
 pub mod c03;
 pub mod c09;
 pub mod c10;
 pub mod c11;
 pub mod c12;
+pub mod c16;
 pub mod codec;
 
 /// (monitor name, property id)
@@ -37,6 +42,12 @@ pub const MONITORS: &[(&str, &str)] = &[
     ("c14-buffers", "C14"),
     ("c15-gates", "C15"),
     ("c15-generated", "C15"),
+    ("c07-transcript", "C07"),
+    ("c07-firstcall", "C07"),
+    ("c17-fuzz", "C17"),
+    ("c18-alloc", "C18"),
+    ("c16-formats", "C16"),
+    ("c16-mock", "C16"),
 ];
 
 pub fn property_of(monitor: &str) -> Option<&'static str> {
@@ -73,6 +84,19 @@ pub fn run(monitor: &str, ctx: &Ctx) -> Option<Report> {
         "c14-buffers" => codec::run_c14(ctx, &mut rep),
         "c15-gates" => codec::run_c15_gates(ctx, &mut rep),
         "c15-generated" => codec::run_c15_generated(ctx, &mut rep),
+        "c07-transcript" => c07::run_transcript(ctx, &mut rep),
+        "c07-firstcall" => c07::run_firstcall(ctx, &mut rep),
+        "c17-fuzz" => c17::run_fuzz(ctx, &mut rep),
+        #[cfg(feature = "count-alloc")]
+        "c18-alloc" => c18::run(ctx, &mut rep),
+        #[cfg(not(feature = "count-alloc"))]
+        "c18-alloc" => rep.inconclusive("this probe was built without the counting allocator"),
+        #[cfg(feature = "serde")]
+        "c16-formats" => c16::run_formats(ctx, &mut rep),
+        #[cfg(feature = "serde")]
+        "c16-mock" => c16::run_mock(ctx, &mut rep),
+        #[cfg(not(feature = "serde"))]
+        "c16-formats" | "c16-mock" => rep.inconclusive("this probe was built without the serde feature"),
         _ => return None,
     }
     Some(rep)
@@ -91,6 +115,12 @@ pub fn replay(monitor: &str, case: &Json, ctx: &Ctx, rep: &mut Report) -> bool {
         "c10-lattice" => c10::replay(case, rep),
         m if m.starts_with("c11-") => c11::replay(case, ctx, rep),
         "c12-stream" | "c13-compare" => c12::replay(case, ctx, rep),
+        #[cfg(feature = "serde")]
+        "c16-formats" | "c16-mock" => c16::replay(case, rep),
+        "c07-transcript" | "c07-firstcall" => c07::replay(case, ctx, rep),
+        "c17-fuzz" => c17::replay(case, rep),
+        #[cfg(feature = "count-alloc")]
+        "c18-alloc" => c18::replay(case, ctx, rep),
         _ => false,
     }
 }
